@@ -76,6 +76,11 @@ impl Units {
                 show_unit(&r.definition)
             ));
         }
+        for r in &self.rows {
+            if r.is_abbreviation {
+                out.setup(&format!("abbr {}", r.name));
+            }
+        }
     }
 
     /// prefixes the unit row accepts (always includes "no prefix")
@@ -109,7 +114,7 @@ pub fn q(bits: u64, factors: Vec<FactorDesc>) -> QDesc {
 }
 
 pub fn q_text(q: &QDesc) -> String {
-    format!("{:016x} {}", q.bits, show_unit(&q.factors))
+    format!("{:016x}{} {}", q.bits, if q.can_simplify { "" } else { "n" }, show_unit(&q.factors))
 }
 
 /// magnitudes: mostly "ordinary" values, plus powers of two across many orders of magnitude and specials
